@@ -137,6 +137,18 @@ func Text(r *rand.Rand, o TextOpts) (string, Classes) {
 	return s, cl
 }
 
+// NoCREOL rewrites s so that no line ends in a carriage return (the documented
+// limitation of multi-entry snapshot files).
+func NoCREOL(s string) string {
+	for strings.Contains(s, "\r\n") {
+		s = strings.ReplaceAll(s, "\r\n", "\r \n")
+	}
+	if strings.HasSuffix(s, "\r") {
+		s += "."
+	}
+	return s
+}
+
 // Pair derives from s a text that differs from it in at least one byte, by one
 // small hostile edit. The returned class names the edit.
 func Pair(r *rand.Rand, s string, creol bool) (string, string) {
